@@ -523,6 +523,10 @@ func runTblCase(r *rng, family string, nr, nc int) (c tblCase, coq string, fails
 			class = structuralKinds[o.Kind]
 		}
 		add := func(clause, detail string) {
+			class := class
+			if clause == "no_panic" && (o.Kind == "InsertColumn" || o.Kind == "DeleteColumn" || o.Kind == "DeleteColumns") {
+				class = "column_edit_panic" // repaired: the column edits check every row first
+			}
 			fails = append(fails, OracleFailure{Clause: clause, Class: class, Detail: fmt.Sprintf("op %d %s%v on a %s table: %s", i, o.Kind, o.A, map[bool]string{true: "merge-free", false: "merged"}[plainBefore], detail)})
 		}
 		if res == 2 {
